@@ -5,7 +5,7 @@ import json, os, subprocess, sys, glob
 pid, rnd = sys.argv[1], sys.argv[2]
 wt = f"/tmp/wt-{pid}r{rnd}"
 subprocess.run(["git", "-C", "/repo", "worktree", "add", "-q", wt, "HEAD"], check=True)
-t = open('/tmp/agent_prompt_template.txt').read()
+t = open(os.path.join(os.path.dirname(os.path.abspath(__file__)), 'agent_prompt_template.txt')).read()
 prop = None
 for l in open('/verif/properties.jsonl'):
     p = json.loads(l)
